@@ -52,7 +52,12 @@ def _explore_job(args):
         from harness.explorer import explore
         mod = importlib.import_module(mod_name)
         factory = getattr(mod, factory_name)
-        res = explore(scenario, lambda: factory(scenario), bound=bound, **limits)
+        known = load_known()
+        def listed(v):
+            # a recorded known finding (of whatever property): it also occurs on the unchanged tree, so it is no reason to cut a search short
+            sig = signature("", scenario.get("family"), v.to_json())
+            return any(known_match(dict(k, also_properties=[], property=""), "", sig) for k in known)
+        res = explore(scenario, lambda: factory(scenario), bound=bound, listed=listed, **limits)
         viols = []
         for v, trace, path in res.violations:
             viols.append({"v": v.to_json(), "labels": trace, "choices": path})
